@@ -250,13 +250,14 @@ def load_currency_data():
         except Exception:
             print("Failed to parse currency data, falling back to default...",
                   file=sys.stderr)
-    if data is None:
+    if not data:
         # Fall back to the default.
         data = parse_currency_data(DEFAULT_CURRENCY_DATA)
     return data
 
 def parse_currency_data(s):
-    cs = map(lambda line: line.split(","), s.split("\n"))
+    cs = map(lambda line: line.split(","),
+             (line for line in s.split("\n") if line.strip()))
     result = []
     for c in cs:
         if len(c) < 3:
